@@ -12,13 +12,12 @@
      {"ev":"BEnd","h","sess","err"}                       Broadcast returned
    A payload is {"origin","body","ok"}, a signature {"by","sess","id","pl"} (by = 0: garbage bytes).
    Whether the client succeeds, and in which order it talks to its peers, is not demanded (the property is about
-   what receivers deliver). *)
+   what receivers deliver).
+   BcastDKGTrace.cfg is the statement as written (AllowRelay = FALSE: every invocation counts for per-sender
+   agreement); BcastDKGTrace_relay.cfg switches on the named deviation RelayForeignPayload (known finding
+   C13-relay-foreign-payload). *)
 EXTENDS BcastDKG, TraceCommon
-CONSTANT Level          \* "accepted": agreement over what the callbacks accept (the property);
-                        \* "raw": over every callback invocation (control, violated by a relayed foreign payload)
 tvars == <<vars, tr, l>>
-AgreementName == IF Level = "raw" THEN "AgreementRaw" ELSE "AgreementAccepted"
-AgreementChecked == IF Level = "raw" THEN AgreementRaw ELSE AgreementAccepted
 Pl(p) == [origin |-> p.origin, body |-> p.body, ok |-> p.ok]
 Sg(g) == Sig(g.by, g.sess, g.id, Pl(g.pl))
 SigList(q) == [i \in 1..Len(q) |-> Sg(q[i])]
@@ -43,7 +42,8 @@ TMsg == /\ IsEvent("Msg") /\ Ev.sess \in Sessions /\ Ev.r \in Honest
         /\ LET sigs == SigList(Ev.sigs)
                v == Verify(Ev.sess, Ev.id, Pl(Ev.pl), sigs) IN
            /\ IF Ev.from \in Faulty
-                THEN FSend(Ev.from, Ev.r, Ev.sess, Ev.id, Pl(Ev.pl), sigs)
+                THEN \/ FSend(Ev.from, Ev.r, Ev.sess, Ev.id, Pl(Ev.pl), sigs)
+                     \/ RelayForeignPayload(Ev.from, Ev.r, Ev.sess, Ev.id, Pl(Ev.pl), sigs)     \* deviation cfg only
                 ELSE /\ Ev.from \in Honest /\ client[Ev.from][Ev.sess].act
                      /\ client[Ev.from][Ev.sess].id = Ev.id /\ client[Ev.from][Ev.sess].pl = Pl(Ev.pl)
                      /\ HSend(Ev.from, Ev.sess, Ev.r, sigs)
@@ -57,7 +57,8 @@ TBEnd == /\ IsEvent("BEnd") /\ Ev.sess \in Sessions /\ BEnd(Ev.h, Ev.sess)
 TraceNext == TReset \/ TBStart \/ TSig \/ TFReply \/ TMsg \/ TFRecv \/ TBEnd
 TraceSpec == TraceInit /\ [][TraceNext]_tvars
 Mark == /\ CheckInv("AllSigned", AllSigned) /\ CheckInv("OnlyAllowed", OnlyAllowed)
-        /\ CheckInv(AgreementName, AgreementChecked)
+        /\ CheckInv("AgreementRaw", AgreementRaw) /\ CheckInv("AgreementAccepted", AgreementAccepted)
+        /\ CheckInv("RelayIsForeign", RelayIsForeign)
         /\ CheckInv("DedupFunctional", DedupFunctional) /\ CheckInv("DedupChecked", DedupChecked)
         /\ CheckInv("KnownGenuine", KnownGenuine) /\ CheckInv("HonestOrigin", HonestOrigin)
         /\ HWMark
